@@ -1,4 +1,7 @@
 import Cell2v.Lemmas.SessionOwner
+import Cell2v.Lemmas.Framing
+import Cell2v.Lemmas.SessionTerm
+import Cell2v.Lemmas.SessionDeliver
 /-!
 C05 — property theorems (one connection: one session-add, its messages in
 order, one session-remove).  All statements quantify over every schedule
@@ -225,5 +228,257 @@ example : idAt (2^32) 0 = 2 ∧ idAt (2^32) 4294967293 = 4294967295 ∧ idAt (2^
     idAt (2^32) 4294967295 = 2 := by
   rw [idAt_eq _ (by decide), idAt_eq _ (by decide), idAt_eq _ (by decide), idAt_eq _ (by decide)]
   decide
+
+/-! ### TCP framing (`tcpPlayerConn.GetNextMessage`): all byte streams, all segmentations -/
+
+open Cell2v.Framing in
+/-- **framing is independent of TCP segmentation**: two streams with the same bytes, however they are cut into
+segments (a header split from its body, a body in many pieces, packets glued together), give the read loop the same
+messages and the same ending. -/
+theorem framing_independent_of_segmentation (k : Nat) (cs cs' : List (List Nat)) (h : cs.flatten = cs'.flatten) :
+    framesOf k cs = framesOf k cs' := framesOf_flat k cs cs' h
+
+open Cell2v.Framing in
+/-- **every complete packet is delivered**: a stream consisting of complete packets (type 1..5, body below 16 MB),
+in any segmentation, then FIN, yields exactly those packets in order and then `ErrConnectionClosed` — no message is
+lost, duplicated, merged or reordered by the framing. -/
+theorem framing_delivers_all_packets (ps : List (Nat × List Nat)) (k : Nat) (cs : List (List Nat))
+    (hw : WellFormed ps) (hk : ps.length < k) (h : cs.flatten = encodeAll ps) :
+    framesOf k cs = (ps.map fun p => encode p.1 p.2, .closed) := framesOf_packets ps k cs hw hk h
+
+open Cell2v.Framing in
+/-- **websocket framing: one packet per message**: `WSConn.GetNextMessage` returns a message that holds exactly one complete
+packet unchanged, and rejects a message in which anything follows the packet (two packets glued into one message end the session) -/
+theorem ws_one_packet_per_message (t : Nat) (body extra : List Nat) (ht : 1 ≤ t ∧ t ≤ 5) (hb : body.length < 16777216) :
+    wsNext (encode t body ++ extra) = if extra = [] then .msg (encode t body) else .err := wsNext_encode t body extra ht hb
+
+open Cell2v.Framing in
+/-- non-vacuity: a handshake-sized and a data-sized packet, the second one's body arriving in two segments, the cut
+of the first inside its header -/
+example : framesOf 5 [[1, 0], [0, 2, 7, 7, 4, 0, 0, 3, 9], [9, 9]] = ([[1, 0, 0, 2, 7, 7], [4, 0, 0, 3, 9, 9, 9]], .closed) := by
+  decide
+
+open Cell2v.Framing in
+/-- **defect witness (single Read)**: reading the body with ONE `conn.Read` instead of reading until the announced
+length is there takes a body that arrives in two segments for a truncated message — the code's `ReadAll(LimitReader)` does not. -/
+theorem single_read_loses_split_body :
+    (getNextWith readOnce [[4, 0, 0, 2, 65], [66]]).1 = .err ∧ (getNext [[4, 0, 0, 2, 65], [66]]).1 = .msg [4, 0, 0, 2, 65, 66] := by
+  decide
+
+/-! ### liveness: the threads always come to rest, and after a close cause the resting state is the finished one -/
+
+/-- **thread steps terminate**: a run of thread steps only (reader, writer, heartbeat, Close callers; no new input on an
+open conn, no kick, no push, no clock advance) from ANY state is at most `work s` steps long — `work` is an explicit
+measure every such step strictly decreases (`work_decreases`).  No fairness assumption is needed: every maximal run
+of the threads is finite and ends where nothing can move. -/
+theorem internal_steps_terminate (s s' : St) (ls : List Lbl) (h : IRun s ls s') : ls.length ≤ work s := by
+  have := irun_bound h; omega
+
+/-- **every connection comes to rest, untouched or finished**: from every reachable state some run of thread steps reaches a
+state where nothing can move, every such run has at most `work s` steps, and every state so reached is `OpenIdle` or `AllDone`. -/
+theorem always_comes_to_rest (s : St) (h : Reachable true s) :
+    (∃ ls s', IRun s ls s' ∧ stuck true s' = true) ∧
+    (∀ ls s', IRun s ls s' → stuck true s' = true → (OpenIdle s' ∨ AllDone s') ∧ s'.mutex = false ∧ s'.kWant = 0) := by
+  refine ⟨exists_irun_to_stuck (work s) s (Nat.le_refl _), ?_⟩
+  intro ls s' hr hs
+  obtain ⟨t, l0, h0⟩ := h
+  exact every_ending_closes s' ⟨t, l0 ++ ls, runL_append true l0 ls _ _ _ h0 (irun_runL hr)⟩ hs
+
+/-- **after any close cause the session finishes**: once `Close()` has been called by anybody — a pending kick, the reader
+after a read error / malformed packet / bad handshake, the writer after a failed write, the heartbeat after the expiry, or
+several of them at once (`Closing`) — every maximal run of the threads is finite (≤ `work s` steps) and ends in `AllDone`:
+session-remove posted exactly once, `conn.Close()` called exactly once, all three goroutines returned, mutex free, no
+Close caller left. -/
+theorem close_cause_finishes (s : St) (h : Reachable true s) (hk : Closing s) :
+    (∃ ls s', IRun s ls s' ∧ stuck true s' = true) ∧
+    (∀ ls s', IRun s ls s' → ls.length ≤ work s) ∧
+    (∀ ls s', IRun s ls s' → stuck true s' = true → AllDone s' ∧ s'.mutex = false ∧ s'.kWant = 0) := by
+  obtain ⟨hex, hall⟩ := always_comes_to_rest s h
+  refine ⟨hex, fun ls s' hr => internal_steps_terminate s s' ls hr, ?_⟩
+  intro ls s' hr hs
+  obtain ⟨hsh, hm, hkw⟩ := hall ls s' hr hs
+  refine ⟨?_, hm, hkw⟩
+  rcases hsh with ho | hd
+  · exfalso
+    obtain ⟨t, l0, h0⟩ := h
+    have hc0 := cinv_run true l0 _ _ (cinv_init t) h0
+    have hk' := closing_irun hr hc0 hk
+    have hc' := cinv_run true ls _ _ hc0 (irun_runL hr)
+    obtain ⟨_, p2, p3, p4, p5, p6⟩ := stuck_phases s' hc' hs
+    obtain ⟨o1, _⟩ := ho
+    simp only [Closing] at hk'
+    rcases hk' with a | a | a | a | a | a
+    · rw [o1] at a; cases a
+    · omega
+    · exact a p5
+    · exact a p2
+    · exact a p3
+    · exact a p4
+  · exact hd
+
+/-- **every close cause calls Close**: a kick, a read error or undecodable frame handed to the loop, a failed write, a failed
+handshake response, a handshake with bad JSON, an undecodable message on a Working session, and the heartbeat check of a
+Working session silent for two intervals each lead into `Closing` — so `close_cause_finishes` applies to all of them. -/
+theorem close_causes_call_close (s s' : St) :
+    (fire true s .kick = some s' → Closing s') ∧
+    ((s.rd = .hold .rerr ∨ s.rd = .hold .bad) → fire true s .rdRet = some s' → Closing s') ∧
+    (fire true s (.wrRet false) = some s' → Closing s') ∧
+    ((∃ j rest, s.rd = .proc (.hs j :: rest)) → fire true s (.rdPkt false) = some s' → Closing s') ∧
+    ((∃ rest, s.rd = .proc (.hs false :: rest)) → fire true s (.rdPkt true) = some s' → Closing s') ∧
+    ((∃ m rest, s.rd = .proc (.data false m :: rest)) → s.status = .working → fire true s (.rdPkt true) = some s' → Closing s') ∧
+    (s.status = .working → ¬ (s.now < s.lastHb + 2 * hbMs) → fire true s .hbChk = some s' → Closing s') := by
+  obtain ⟨status, closed, mutex, cc, posted, sendq, writes, now, lastHb, tickAt, rd, rdC, wr, wrC, hb, hbC, kWant, kC, arrived⟩ := s
+  refine ⟨?_, ?_, ?_, ?_, ?_, ?_, ?_⟩
+  · intro hf; simp only [fire] at hf; cases hf; simp [Closing]
+  · intro hr hf; simp only at hr
+    rcases hr with rfl | rfl <;> simp only [fire, rdExit] at hf <;> (repeat' split at hf) <;> simp_all [Closing] <;>
+      (cases hf; simp)
+  · intro hf; simp only [fire] at hf; (repeat' split at hf) <;> simp_all [Closing] <;> (cases hf; simp)
+  · rintro ⟨j, rest, hr⟩ hf; simp only at hr; subst hr
+    simp only [fire, rdExit] at hf; (repeat' split at hf) <;> simp_all [Closing] <;> (cases hf; simp)
+  · rintro ⟨rest, hr⟩ hf; simp only at hr; subst hr
+    simp only [fire, rdExit] at hf; (repeat' split at hf) <;> simp_all [Closing] <;> (cases hf; simp)
+  · rintro ⟨m, rest, hr⟩ hw hf; simp only at hr hw; subst hr; subst hw
+    simp only [fire, rdExit] at hf; (repeat' split at hf) <;> simp_all [Closing] <;> (cases hf; simp)
+  · intro hw hx hf; simp only at hw hx; subst hw
+    simp only [fire] at hf; (repeat' split at hf) <;> simp_all [Closing] <;> (cases hf; simp)
+
+/-- non-vacuity of `close_cause_finishes`: a kick on an idle Working session; the threads then finish in at most 19 steps -/
+example : ∃ s, runL true init (hsSchedule ++ [.rdTop, .kick]) = some s ∧ Closing s ∧ work s = 19 := by
+  refine ⟨_, rfl, ?_, ?_⟩
+  · simp only [Closing]; decide
+  · decide
+
+/-! ### the message clause from below: nothing is dropped -/
+
+/-- **no message of a frame is dropped** (either reader, every schedule): while the reader is inside a frame of packets that
+neither end the loop nor take the session out of Working (data that decodes, heartbeat, ack, kick packets) on a session
+that has been ACKed, then — whatever the reader, the writer, the heartbeat, Close callers, pushes, the clock and further
+input do afterwards, in any interleaving — every message of that frame is, in order and after the earlier ones, either
+already posted to the owner or still in the reader's hand; once the reader has left the frame all of them are posted. -/
+theorem frame_messages_never_dropped (fx : Bool) (s : St) (ps : List Pkt) (hrd : s.rd = .proc ps) (hc : s.rdC = .out)
+    (hst : s.status = .working ∨ s.status = .closed) (hb : ∀ p ∈ ps, benign p = true)
+    (ls : List Lbl) (s' : St) (hr : runL fx s ls = some s') :
+    (∃ rest, s'.rd = .proc rest ∧ msgsOf s'.posted ++ midsOfPkts rest = msgsOf s.posted ++ midsOfPkts ps) ∨
+    (msgsOf s.posted ++ midsOfPkts ps) <+: msgsOf s'.posted := by
+  have h0 : Delivered (msgsOf s.posted ++ midsOfPkts ps) s := Or.inl ⟨hc, hst, ps, hrd, hb, rfl⟩
+  rcases delivered_run fx _ ls s s' h0 hr with ⟨_, _, rest, h1, _, h2⟩ | h
+  · exact Or.inl ⟨rest, h1, h2⟩
+  · exact Or.inr h
+
+/-- **the owner handles every message posted before the remove** (either reader, owner as repaired): once it has consumed
+what was posted, the messages its handler saw are exactly — not merely a subsequence of — the messages posted before the
+session-remove, in order. -/
+theorem owner_sees_every_message_before_remove (fx : Bool) (s : St) (h : Reachable fx s) :
+    omsgs (view true false s.posted) = msgsOf (untilRemove s.posted) := by
+  obtain ⟨t, ls, hr⟩ := h
+  obtain ⟨_, ⟨r, hh⟩⟩ := jh_run fx ls _ _ (jinv_init t) (hinv_init t) hr
+  obtain ⟨_, _, _, h4, _⟩ := cinv_run fx ls _ _ (cinv_init t) hr
+  have hr0 : adds r = 0 := by rw [hh] at h4; simp only [adds] at h4; omega
+  rw [hh]
+  simp [view, omsgs, untilRemove, msgsOf, view_msgs_live r hr0]
+
+/-- non-vacuity of `frame_messages_never_dropped`: a Working session inside the frame [d1, hb, d2]; a kick closes it while
+the reader is between the two messages; both are posted all the same (the second one after the remove) -/
+example : ∃ s s', runL true init (hsSchedule ++ [.rdTop, .rdTake (.frame [.data true 1, .hb, .data true 2]), .rdRet]) = some s ∧
+    s.rd = .proc [.data true 1, .hb, .data true 2] ∧ s.rdC = .out ∧ s.status = .working ∧
+    runL true s [.rdPkt true, .kick, .cLock .kk, .cCheck .kk, .cFin .kk, .rdPkt true, .rdPkt true, .rdPkt true] = some s' ∧
+    s'.posted = [.add, .msg 1, .remove, .msg 2] ∧ omsgs (view true false s'.posted) = [1] :=
+  ⟨_, _, rfl, rfl, rfl, rfl, rfl, by decide, by decide⟩
+
+/-! ### the owner's sessions map: any number of connections, lookups by id -/
+
+/-- **the id of a new session is not the id of any live session**: if every live session was allocated fewer than
+`M - 1 = 2^32 - 1` allocations before the new one (`live` = their allocation indices), the new id is none of theirs, and it is not 0. -/
+theorem new_id_not_live (M : Nat) (hM : 3 ≤ M) (live : List Nat) (n : Nat) (h : ∀ i ∈ live, i < n ∧ n - i < M - 1) :
+    idAt M n ∉ live.map (idAt M) ∧ idAt M n ≠ 0 := by
+  constructor
+  · intro hm
+    obtain ⟨i, hi, heq⟩ := List.mem_map.mp hm
+    exact (unique_live_id M hM i n (h i hi).1 (h i hi).2).1 heq
+  · rw [idAt_eq M hM]; omega
+
+/-- **every connection is served through its own session**: `ProcessMessage`, `RemoveSession`, `Kick` and `PushMsg` look the
+FrontSession up by the id the session holds.  In a sessions map in which every entry is stored under its connection's id
+(`Own.Agree`, kept by `AddSession`/`RemoveSession`: `owner_map_agrees`) and no two connections share an id (what
+`new_id_not_live` gives inside the allocation window), a lookup under connection `k`'s id finds `k`'s own session or
+nothing — never another connection's. -/
+theorem owner_lookup_hits_own_session (o : Own) (idOf : Nat → Nat) (ha : o.Agree idOf)
+    (hinj : ∀ k k', idOf k = idOf k' → k = k') (k : Nat) :
+    o.lookup (idOf k) = none ∨ o.lookup (idOf k) = some k := Own.lookup_own o idOf ha hinj k
+
+/-- **session-remove deletes the connection's own entry and nothing else**; the handler and the close callbacks get that
+connection's FrontSession; every other live session stays registered. -/
+theorem owner_remove_deletes_own_entry (o : Own) (idOf : Nat → Nat) (ha : o.Agree idOf)
+    (hinj : ∀ k k', idOf k = idOf k' → k = k') (k : Nat) (hl : (idOf k, k) ∈ o.live) :
+    (o.remove (idOf k)).2 = some k ∧ ∀ p, p ∈ (o.remove (idOf k)).1.live ↔ (p ∈ o.live ∧ p.2 ≠ k) :=
+  Own.remove_own o idOf ha hinj k hl
+
+/-- `AddSession` (of a connection not yet in the map) and `RemoveSession` keep every entry under its connection's id, and a
+lookup under the fresh id finds the new connection -/
+theorem owner_map_agrees (M : Nat) (o : Own) (idOf : Nat → Nat) (ha : o.Agree idOf) :
+    (∀ k, (∀ p ∈ o.live, p.2 ≠ k) → (o.add M k).1.Agree (fun j => if j = k then (o.add M k).2 else idOf j)) ∧
+    (∀ k, (o.add M k).1.lookup (o.add M k).2 = some k) ∧
+    (∀ id, (o.remove id).1.Agree idOf) :=
+  ⟨fun k hk => Own.agree_add M o idOf k ha hk, fun k => Own.lookup_add M o k, fun id => Own.agree_remove o idOf id ha⟩
+
+/-- **pushes after the removal reach nobody**: once `RemoveSession` ran for connection `k`, a `PushMsg` aimed at its id (alone
+or among other ids) calls `Push` on no session for that id — it is skipped (`onSessionMissed`), the other ids of the same
+push are served as before. -/
+theorem push_after_remove_reaches_nobody (o : Own) (idOf : Nat → Nat) (ha : o.Agree idOf)
+    (hinj : ∀ k k', idOf k = idOf k' → k = k') (k : Nat) (hl : (idOf k, k) ∈ o.live) (before after : List Nat) :
+    (o.remove (idOf k)).1.pushTargets (before ++ idOf k :: after) =
+      (o.remove (idOf k)).1.pushTargets before ++ (o.remove (idOf k)).1.pushTargets after := by
+  simp [Own.pushTargets, List.filterMap_append, Own.lookup_after_remove o idOf ha hinj k hl]
+
+/-- non-vacuity: two connections; the first one's message and remove hit its own entry, the second one stays -/
+example : let o2 := ((({} : Own).add (2^32) 1).1.add (2^32) 2).1
+    o2.live = [(3, 2), (2, 1)] ∧ o2.lookup 2 = some 1 ∧ (o2.remove 2).2 = some 1 ∧ (o2.remove 2).1.live = [(3, 2)] ∧
+    (o2.remove 2).1.lookup 2 = none := by decide
+
+/-- **what the allocation window excludes**: when the id counter comes round to the id of a session that is still live, the
+new session takes over its entry; the old connection's next message is handled with the NEW connection's session and its
+remove unregisters the new connection (counter set so that the next id is 2 again) -/
+theorem id_reuse_hijacks_entry : let o1 := (({} : Own).add (2^32) 1).1
+    let o2 := ({ o1 with counter := 1 }.add (2^32) 2).1
+    o1.lookup 2 = some 1 ∧ o2.lookup 2 = some 2 ∧ (o2.remove 2).2 = some 2 ∧ (o2.remove 2).1.live = [] := by decide
+
+/-! ### defect witness: the closed-latch test outside the mutex -/
+
+/-- `Close()` with the latch tested BEFORE `mutex.Lock()` and not again under it: the step of a caller that holds the mutex
+marks the session closed unconditionally (in Go: `close(chanClose)` a second time panics; without the panic a second
+`conn.Close()` and a second OnSessionClose follow) -/
+def cCheckNoRecheck (s : St) : Option St :=
+  if s.kC = .locked then some { s with status := .closed, closed := true, kC := .fin } else none
+
+/-- **the test under the mutex is what makes Close idempotent**: two independent Close callers that both passed the unlocked
+test (two kicks pending) go through the critical section one after the other; without the re-check the second one closes
+again (remove posted twice, conn closed twice), with the code's `cCheck` it leaves (remove once). -/
+theorem unlocked_latch_test_closes_twice :
+    (∃ s1 s2 s3 s4 s5, runL true init [.kick, .kick, .cLock .kk] = some s1 ∧ cCheckNoRecheck s1 = some s2 ∧
+        runL true s2 [.cFin .kk, .cLock .kk] = some s3 ∧ cCheckNoRecheck s3 = some s4 ∧ fire true s4 (.cFin .kk) = some s5 ∧
+        removes s5.posted = 2 ∧ s5.connCloses = 2) ∧
+    (∃ s, runL true init [.kick, .kick, .cLock .kk, .cCheck .kk, .cFin .kk, .cLock .kk, .cCheck .kk] = some s ∧
+        removes s.posted = 1 ∧ s.connCloses = 1 ∧ s.kC = .out ∧ s.mutex = false) :=
+  ⟨⟨_, _, _, _, _, rfl, rfl, rfl, rfl, rfl, by decide, by decide⟩, ⟨_, rfl, by decide, by decide, by decide, by decide⟩⟩
+
+/-- non-vacuity of the owner-map theorems: the two-connection map stores every entry under its connection's id
+(`idOf k = k + 1`, injective), and connection 1's entry is there -/
+example : let o2 := ((({} : Own).add (2^32) 1).1.add (2^32) 2).1
+    o2.Agree (fun k => k + 1) ∧ (∀ k k' : Nat, k + 1 = k' + 1 → k = k') ∧ ((fun k => k + 1) 1, 1) ∈ o2.live := by
+  refine ⟨?_, fun k k' h => by omega, by decide⟩
+  intro p hp
+  have : p = (3, 2) ∨ p = (2, 1) := by
+    have h2 : ((({} : Own).add (2^32) 1).1.add (2^32) 2).1.live = [(3, 2), (2, 1)] := by decide
+    rw [h2] at hp; simpa using hp
+  rcases this with rfl | rfl <;> rfl
+
+/-- non-vacuity of `new_id_not_live`: sessions 0 and 1 live, the third allocation -/
+example : idAt (2^32) 2 ∉ [0, 1].map (idAt (2^32)) ∧ idAt (2^32) 2 ≠ 0 :=
+  new_id_not_live (2^32) (by decide) [0, 1] 2 (by intro i hi; simp at hi; rcases hi with rfl | rfl <;> decide)
+
+/-- non-vacuity of `internal_steps_terminate`: a run of one thread step (the reader goes to its read) -/
+example : ∃ s', IRun init [.rdTop] s' ∧ work s' < work init :=
+  ⟨_, IRun.cons (Or.inl (by simp [internalLbls])) rfl (IRun.nil _), by decide⟩
 
 end Cell2v.Props.C05
